@@ -35,7 +35,7 @@ CAPS = list(range(0, 13))
 
 
 def plan(tier):
-    return {"runs": 240} if tier == "quick" else {"runs": 10000000, "budget": 1200.0}
+    return {"runs": 240} if tier == "quick" else {"runs": 30000, "budget": 1200.0}
 
 
 # ---------------------------------------------------------------------------------------------------------------
